@@ -170,13 +170,16 @@ theorem writeTo_inv (s : State) (peer : Addr) (data : Bytes) (prx brx : List Rx)
       obtain ⟨hi1, hip⟩ := hs1
       cases hfb : findBind s1 peer with
       | some b =>
-        simp only
+        simp only [bindFor, hfb]
         obtain ⟨hbm, _⟩ := findBind_mem hfb
         split
         · exact hi1
         · exact maybeBind_inv s1 b brx hi1 hbm
       | none =>
-        simp only
+        simp only [bindFor, hfb]
+        by_cases hfull : s1.binds.length < chanCount
+        case neg => simp only [hfull, if_false]; exact hi1
+        simp only [hfull, if_true]
         have hi2 : Inv { s1 with binds := s1.binds ++ [⟨peer, s1.next, .idle, s1.now, false⟩], next := nextNum s1.next } := by
           refine ⟨hi1.perm, ?_, ?_, hi1.queue⟩
           · intro b hb hok
@@ -360,7 +363,7 @@ theorem data_after_permission (s : State) (hs : Inv s) (peer : Addr) (data : Byt
         · simp at ho
       cases hfb : findBind s1 peer with
       | some b =>
-        simp only [hfb] at ho hinv ⊢
+        simp only [bindFor, hfb] at ho hinv ⊢
         obtain ⟨hbm, hba⟩ := findBind_mem hfb
         split at ho
         · rename_i hok
@@ -381,7 +384,17 @@ theorem data_after_permission (s : State) (hs : Inv s) (peer : Addr) (data : Byt
           · exact ⟨by rw [hk]; exact hip, Or.inl rfl⟩
           · simp [isData] at hd
       | none =>
-        simp only [hfb] at ho hinv ⊢
+        simp only [bindFor, hfb] at ho hinv ⊢
+        by_cases hfull : s1.binds.length < chanCount
+        case neg =>
+          -- every channel number is held: a Send indication, permission in place
+          simp only [hfull, if_false] at ho hinv ⊢
+          simp only [List.mem_append, List.mem_cons, List.mem_nil_iff, or_false] at ho
+          rcases ho with ho | rfl | rfl
+          · rw [hpre o ho] at hd; cases hd
+          · exact ⟨hip, Or.inl rfl⟩
+          · simp [isData] at hd
+        simp only [hfull, if_true] at ho hinv ⊢
         split at ho
         · rename_i hok; simp [BState.isOk] at hok
         · rename_i hok
